@@ -333,11 +333,11 @@ def Bi(df, asof = None):
         df[_updated] = list(df.index[1:]) + [now]        
     elif is_bump(asof):
         now = dt()
-        df[_updated] = dt_bump(df, asof).index
+        df[_updated] = [dt_bump(t, asof) for t in df.index] ## row by row: dt_bump of the whole table merges rows that land on one stamp (Saturday and Sunday under '1b') and the stamps no longer fit the rows
         df.loc[(df[_updated] > now), _updated] = now
     elif isinstance(asof, list):
         now = dt()
-        df[_updated] = dt_bump(df, *asof).index
+        df[_updated] = [dt_bump(t, *asof) for t in df.index]
         df.loc[(df[_updated] > now), _updated] = now
     else:
         df[_updated] = dt(asof)
